@@ -280,8 +280,15 @@ async fn credit_script(
     let mut f = st.ps.flow_args();
     f.handle = Some(st.peer_handle);
     f.delivery_count = Some(dc_rcv(st));
-    f.link_credit = Some(remaining + 2);
-    st.limit = dc_rcv(st).wrapping_add(remaining + 2);
+    // the credit is a plain uint: 2^31 and 2^32-1 ("send as much as you like") are grants like any other
+    let final_credit = if choice(4) == 1 {
+        sim::probe("credit-of-2^31-or-more-granted");
+        pick(&[u32::MAX, 0x8000_0000u32, 0x8000_0001])
+    } else {
+        remaining + 2
+    };
+    f.link_credit = Some(final_credit);
+    st.limit = dc_rcv(st).wrapping_add(final_credit);
     send_flow(peer, st, &f).await;
     let deadline = tokio::time::Instant::now() + sim::OP_DEADLINE;
     loop {
